@@ -244,3 +244,106 @@ pub proof fn lemma_accepted_precedence(seg: Seq<Call>, this: Address, ctx: Conte
         }
     }
 }
+
+// ---- the whole check: "succeeds only if every supplied signature verifies and every requested context is covered" ----
+pub proof fn lemma_auth_every_pair(base: Set<(Address, Seq<SV>)>, payload: Seq<u8>, entries: Seq<(Signer, Bytes)>)
+    ensures
+        forall|x: (Address, Seq<SV>)| base.contains(x) ==> auth_args_after(base, payload, entries).contains(x),
+        forall|i: int| 0 <= i < entries.len() ==> match (#[trigger] entries[i]).0 {
+            Signer::External(v, k) => auth_calls(payload, entries).contains(verify_call(payload, v, k, entries[i].1)),
+            Signer::Delegated(a) => auth_args_after(base, payload, entries).contains((a, seq![SV::Bytes(payload)])),
+        },
+    decreases entries.len()
+{
+    if entries.len() > 0 {
+        let e0 = entries.drop_last();
+        lemma_auth_every_pair(base, payload, e0);
+        let c0 = auth_calls(payload, e0);
+        let c = auth_calls(payload, entries);
+        assert forall|i: int| 0 <= i < entries.len() implies match (#[trigger] entries[i]).0 {
+            Signer::External(v, k) => c.contains(verify_call(payload, v, k, entries[i].1)),
+            Signer::Delegated(a) => auth_args_after(base, payload, entries).contains((a, seq![SV::Bytes(payload)])),
+        } by {
+            if i < entries.len() - 1 {
+                assert(e0[i] == entries[i]);
+                match entries[i].0 {
+                    Signer::External(v, k) => {
+                        let x = verify_call(payload, v, k, entries[i].1);
+                        assert(c0.contains(x));
+                        let q = choose|q: int| 0 <= q < c0.len() && c0[q] == x;
+                        assert(c[q] == x);
+                    }
+                    Signer::Delegated(a) => {}
+                }
+            } else {
+                match entries[i].0 {
+                    Signer::External(v, k) => { assert(c[c0.len() as int] == verify_call(payload, v, k, entries[i].1)); }
+                    Signer::Delegated(a) => {}
+                }
+            }
+        }
+    }
+}
+pub proof fn lemma_validated_each(w: World, seg: Seq<Call>, ctxs: Seq<Context>, all: Seq<Signer>, vcs: Seq<VC>, i: int)
+    requires validated_log(w, seg, ctxs, all, vcs), 0 <= i < vcs.len(),
+    ensures exists|lo: int, hi: int| 0 <= lo <= hi <= seg.len() && gvc_seg(w, #[trigger] seg.subrange(lo, hi), ctxs[i], all, vcs[i]),
+    decreases vcs.len()
+{
+    let p = choose|p: int| 0 <= p <= seg.len() && validated_log(w, #[trigger] seg.take(p), ctxs, all, vcs.drop_last())
+        && gvc_seg(w, seg.skip(p), ctxs[vcs.len() - 1], all, vcs.last());
+    if i == vcs.len() - 1 {
+        assert(seg.skip(p) =~= seg.subrange(p, seg.len() as int));
+    } else {
+        lemma_validated_each(w, seg.take(p), ctxs, all, vcs.drop_last(), i);
+        let (lo, hi) = choose|lo: int, hi: int| 0 <= lo <= hi <= seg.take(p).len() && gvc_seg(w, #[trigger] seg.take(p).subrange(lo, hi), ctxs[i], all, vcs.drop_last()[i]);
+        assert(seg.take(p).subrange(lo, hi) =~= seg.subrange(lo, hi));
+    }
+}
+/// C03, soundness direction, for the log shape `dca_with` that `do_check_auth` guarantees on `Ok`
+pub proof fn lemma_check_auth_sound(w0: World, w2: World, payload: Seq<u8>, entries: Seq<(Signer, Bytes)>, ctxs: Seq<Context>, vcs: Seq<VC>)
+    requires dca_with(w0, w2, payload, entries, ctxs, vcs),
+    ensures
+        //@@ C03:lemma.check_auth.every_signature_verified
+        forall|i: int| 0 <= i < entries.len() ==> match (#[trigger] entries[i]).0 {
+            Signer::External(v, k) => new_calls(w0, w2).contains(verify_call(payload, v, k, entries[i].1)),
+            Signer::Delegated(a) => w2.auth_args.contains((a, seq![SV::Bytes(payload)])),
+        },
+        //@@ C03:lemma.check_auth.every_context_covered_by_selected_rule
+        forall|i: int| 0 <= i < ctxs.len() ==> (#[trigger] vcs[i]).1 == ctxs[i] && candidates_exist(w0, ctx_rule_type(ctxs[i]))
+            && exists|sub: Seq<Call>, k: int| #[trigger] gvc_choice(w0, sub, ctxs[i], smap_keys(entries), vcs[i].0, vcs[i].2@, k),
+        //@@ C03:lemma.check_auth.exactly_chosen_policies_enforced
+        w2.calls.len() >= enforce_calls(w0.this, vcs, vcs.len() as int).len()
+            && w2.calls.skip(w2.calls.len() - enforce_calls(w0.this, vcs, vcs.len() as int).len()) =~= enforce_calls(w0.this, vcs, vcs.len() as int),
+        //@@ C03:lemma.check_auth.own_state_untouched
+        w2.same_storage(w0) && w2.same_ledger(w0) && w2.events == w0.events && w2.auths == w0.auths,
+{
+    lemma_auth_every_pair(w0.auth_args, payload, entries);
+    let la = auth_calls(payload, entries);
+    let le = enforce_calls(w0.this, vcs, vcs.len() as int);
+    let pa = (w0.calls.len() + la.len()) as int;
+    let pe = (w2.calls.len() - le.len()) as int;
+    assert forall|i: int| 0 <= i < entries.len() implies match (#[trigger] entries[i]).0 {
+        Signer::External(v, k) => new_calls(w0, w2).contains(verify_call(payload, v, k, entries[i].1)),
+        Signer::Delegated(a) => w2.auth_args.contains((a, seq![SV::Bytes(payload)])),
+    } by {
+        match entries[i].0 {
+            Signer::External(v, k) => {
+                let x = verify_call(payload, v, k, entries[i].1);
+                let q = choose|q: int| 0 <= q < la.len() && la[q] == x;
+                assert(w2.calls.subrange(0, pa)[w0.calls.len() + q] == (w0.calls + la)[w0.calls.len() + q]);
+                assert(new_calls(w0, w2)[q] == x);
+            }
+            Signer::Delegated(a) => {}
+        }
+    }
+    let seg = w2.calls.subrange(pa, pe);
+    assert forall|i: int| 0 <= i < ctxs.len() implies (#[trigger] vcs[i]).1 == ctxs[i] && candidates_exist(w0, ctx_rule_type(ctxs[i]))
+        && exists|sub: Seq<Call>, k: int| #[trigger] gvc_choice(w0, sub, ctxs[i], smap_keys(entries), vcs[i].0, vcs[i].2@, k) by {
+        lemma_validated_each(w0, seg, ctxs, smap_keys(entries), vcs, i);
+        let (lo, hi) = choose|lo: int, hi: int| 0 <= lo <= hi <= seg.len() && gvc_seg(w0, #[trigger] seg.subrange(lo, hi), ctxs[i], smap_keys(entries), vcs[i]);
+        let sub = seg.subrange(lo, hi);
+        let k = choose|k: int| #[trigger] gvc_choice(w0, sub, ctxs[i], smap_keys(entries), vcs[i].0, vcs[i].2@, k);
+        assert(gvc_choice(w0, sub, ctxs[i], smap_keys(entries), vcs[i].0, vcs[i].2@, k));
+    }
+    assert(w2.calls.skip(pe) =~= w2.calls.subrange(pe, w2.calls.len() as int));
+}
